@@ -358,17 +358,27 @@ func LowerOwner(rr dns.RR) { rr.Header().Name = strings.ToLower(rr.Header().Name
 
 // Unsort reverses every list of the record (type bitmaps, texts, options, SVCB parameters,
 // APL prefixes, ...; octet strings are values, not lists, and keep their order).
-func Unsort(rr dns.RR) (changed bool) {
+func Unsort(rr dns.RR) (changed bool) { return UnsortIf(rr, nil) }
+
+// UnsortIf reverses list by list and asks keep (if not nil) after each whether to keep it.
+func UnsortIf(rr dns.RR, keep func() bool) (changed bool) {
 	for _, c := range sliceCells(rr) {
 		v := c.V
 		if v.Type().Elem().Kind() == reflect.Uint8 || v.Len() < 2 {
 			continue
 		}
-		tmp := reflect.New(v.Type().Elem()).Elem()
-		for i, j := 0, v.Len()-1; i < j; i, j = i+1, j-1 {
-			tmp.Set(v.Index(i))
-			v.Index(i).Set(v.Index(j))
-			v.Index(j).Set(tmp)
+		rev := func() {
+			tmp := reflect.New(v.Type().Elem()).Elem()
+			for i, j := 0, v.Len()-1; i < j; i, j = i+1, j-1 {
+				tmp.Set(v.Index(i))
+				v.Index(i).Set(v.Index(j))
+				v.Index(j).Set(tmp)
+			}
+		}
+		rev()
+		if keep != nil && !keep() {
+			rev()
+			continue
 		}
 		changed = true
 	}
